@@ -114,12 +114,19 @@ func decodeBatch(dgram []byte, compact bool) (batch m3thrift.MetricBatch, seq in
 
 // deadUDPAddr returns a loopback address nobody listens on: a connected UDP socket sending there gets
 // ECONNREFUSED on every other send (the ICMP answer to the previous datagram).
+var deadSock *net.UDPConn
+
+// deadUDPAddr is a loopback UDP address on which nobody listens: sends to it are answered with "port
+// unreachable" (the next write on a connected sender socket fails with ECONNREFUSED).  The port stays
+// reserved for the life of the process - a socket bound to it and connected to another peer does not match
+// datagrams from anybody else - so that no sink created later can be given the same port.
 func deadUDPAddr() string {
-	c, err := net.ListenUDP("udp", &net.UDPAddr{IP: net.IPv4(127, 0, 0, 1)})
-	if err != nil {
-		fatal("listen udp: %v", err)
+	if deadSock == nil {
+		c, err := net.DialUDP("udp", &net.UDPAddr{IP: net.IPv4(127, 0, 0, 1)}, &net.UDPAddr{IP: net.IPv4(127, 0, 0, 1), Port: 9})
+		if err != nil {
+			fatal("dial udp: %v", err)
+		}
+		deadSock = c
 	}
-	a := c.LocalAddr().String()
-	c.Close()
-	return a
+	return deadSock.LocalAddr().String()
 }
